@@ -554,6 +554,8 @@ def run(run, model):
     # a stale core accepted at link behaves unlike whole-program compilation of the current sources (shared with C15 R15.4)
     from rules import c15 as _c15
     run.try_rule(_c15.r15_4, model)
+    # a build that leaves old artifacts behind makes separate compilation reject what whole-program compilation accepts (shared with C15 R15.9)
+    run.try_rule(_c15.r15_9, model)
     run.try_rule(r14_15, model)
     run.try_rule(r14_16, model)
     run.try_rule(r14_2, model)
